@@ -12,6 +12,7 @@ mod covclass;
 mod gen;
 mod gpos_case;
 mod model;
+mod order;
 mod plan;
 mod walk;
 
@@ -68,6 +69,31 @@ fn small_mark(rng: &mut Rng) -> MarkSpec {
         dev_mode: rng.usize(6) as u8,
         special_pct: *rng.pick(&[0u64, 30, 100]),
         mark_shape: rng.usize(3) as u8,
+    }
+}
+
+fn order_spec(rng: &mut Rng, size: u8) -> OrderSpec {
+    // size 0: a handful of glyphs and rules (collisions are the rule, and the
+    // full glyph cross product is queried); 1: medium; 2: large class sets
+    let (n1, n2, n_rules, m1, m2) = match size {
+        0 => (3 + rng.usize(6), 2 + rng.usize(5), 2 + rng.usize(9), 1 + rng.usize(3), 1 + rng.usize(3)),
+        1 => (10 + rng.usize(40), 8 + rng.usize(30), 10 + rng.usize(50), 2 + rng.usize(6), 2 + rng.usize(6)),
+        _ => (200 + rng.usize(600), 100 + rng.usize(300), 20 + rng.usize(40), 20 + rng.usize(60), 10 + rng.usize(40)),
+    };
+    OrderSpec {
+        n1,
+        n2,
+        n_rules,
+        max_set1: m1,
+        max_set2: m2,
+        template: if rng.chance(1, 3) { 1 + rng.usize(4) as u8 } else { 0 },
+        n_glyph_pairs: *rng.pick(&[0usize, 0, 1, 3, 8]),
+        n_tp: 1 + rng.usize(3),
+        dev_mode: *rng.pick(&[0u8, 0, 0, 0, 2, 4, 5]),
+        dev_pct: *rng.pick(&[30u64, 100]),
+        stride: *rng.pick(&[1usize, 1, 2, 7]),
+        exact_dups: rng.chance(1, 4),
+        share_universe: rng.chance(1, 2),
     }
 }
 
@@ -275,6 +301,25 @@ fn scenarios(tier: Tier, seed: u64) -> Vec<CaseSpec> {
         }
         push(&mut v, "small", lookups, &mut rng);
     }
+    // ---- class rules over OVERLAPPING glyph sets: insertion order is precedence
+    for _ in 0..tier.pick(48, 240) {
+        let n = 1 + rng.usize(2);
+        let lookups = vec![LookupSpec::PairOrder((0..n).map(|_| order_spec(&mut rng, 2)).collect())];
+        push(&mut v, "class-order-large", lookups, &mut rng);
+    }
+    for _ in 0..tier.pick(2000, 30000) {
+        let n = 1 + rng.usize(2);
+        let lookups = vec![LookupSpec::PairOrder((0..n).map(|_| order_spec(&mut rng, 1)).collect())];
+        push(&mut v, "class-order-medium", lookups, &mut rng);
+    }
+    for _ in 0..tier.pick(40000, 600000) {
+        let mut lookups = vec![];
+        for _ in 0..1 + rng.usize(2) {
+            let n = if rng.chance(1, 4) { 2 } else { 1 };
+            lookups.push(LookupSpec::PairOrder((0..n).map(|_| order_spec(&mut rng, 0)).collect()));
+        }
+        push(&mut v, "class-order", lookups, &mut rng);
+    }
     // ---- the smallest: ten rules
     for _ in 0..tier.pick(16, 64) {
         let s = PairSpec::glyph_only(2 + rng.usize(3), 2 + rng.usize(3));
@@ -293,7 +338,8 @@ pub fn run(ctx: &mut Ctx, _args: &Args) {
         .into();
     ctx.assumptions = vec![
         "first-match semantics as implemented by the reference walker: PairPos format 1 applies only if the pair set has the second glyph, format 2 applies as soon as coverage matches; MarkBasePos falls through on a null base anchor".into(),
-        "stage 1 (rules vs builder output) runs on rule sets whose class-1 classes are disjoint across class subtables (verified per case); stage 2 (owned vs compiled) has no such restriction".into(),
+        "stage 1 (rules vs builder output, exact) runs on rule sets whose class-1 classes are disjoint across class subtables (verified per case); stage 2 (owned vs compiled) has no such restriction".into(),
+        "rule sets with overlapping class sets (class-order cases, shadowed-by-design cases, any lookup whose class coverages overlap) get the rule-ORDER oracle instead of stage 1, on the owned tables and on the compiled bytes: the value of the first inserted rule containing the pair, or no adjustment if an earlier-inserted rule of the same builder has the first glyph in its class-1 set; never a later rule's value; nothing for a pair in no rule. A later class rule with exactly the same two glyph sets as an earlier one may replace it (BTreeMap::insert in ClassPairPosSubtable::add, as in feaLib): either value is accepted and counted".into(),
         "value records / anchors are compared by what they denote (absent field = 0 / no device); differences in explicit-zero vs absent fields are only counted".into(),
         "variation-index records: the VariationStoreBuilder's remapping is taken as given (only injectivity is checked)".into(),
     ];
